@@ -27,6 +27,9 @@ type node struct {
 }
 
 type field struct {
+	// Optional: a shape goverter may not support on the tree under test (arrays as targets);
+	// if goverter refuses the world it is rebuilt without the optional fields.
+	Optional bool
 	Name    string // source field name
 	TName   string // target field name (C07 renames)
 	N       *node
@@ -66,6 +69,8 @@ type Spec struct {
 	// location oracle is skipped for them (what their own segment contributes is unspecified),
 	// all other methods keep the converter-level setting and the full oracle.
 	MethodWrapOff map[string]bool
+	Shared        map[int]*node // named structs used identically on both sides
+	HasOptional   bool
 	PtrRoot   map[int]bool
 	nextID    int
 	rng       *rand.Rand
@@ -98,6 +103,7 @@ func NewSpec(seed uint64, prop string) *Spec {
 	s.AutoMethodSrc = r.IntN(2) == 0
 	s.UFieldsMax = 2 + r.IntN(3)
 	s.maxDepth = 3 + r.IntN(3)
+	s.Shared = map[int]*node{}
 	s.SkipCopyMode = "none"
 	if prop == "C04" {
 		switch r.IntN(6) {
@@ -228,6 +234,28 @@ func (s *Spec) genStruct(depth int) *node {
 		n.Fields = append(n.Fields, s.mkField(i, s.gen(depth+1, n), n))
 	}
 	s.structsAt = s.structsAt[:len(s.structsAt)-1]
+	if s.Prop == "C04" && s.rng.IntN(4) == 0 {
+		// a named struct that is the SAME type on both sides (must still be deep-copied)
+		sh := s.genShared(0)
+		var fn *node = sh
+		switch s.rng.IntN(4) {
+		case 0:
+			fn = &node{Kind: "slice", Elem: sh}
+		case 1:
+			fn = &node{Kind: "ptr", Elem: sh}
+		}
+		n.Fields = append(n.Fields, &field{Name: fmt.Sprintf("F%d", len(n.Fields)), TName: fmt.Sprintf("F%d", len(n.Fields)), N: fn})
+		if s.rng.IntN(2) == 0 {
+			// optional: arrays (as targets) around identical or converted elements
+			var el *node = sh
+			if s.rng.IntN(3) == 0 {
+				el = &node{Kind: "basic", Basic: basics[s.rng.IntN(len(basics))]}
+			}
+			arr := &node{Kind: "array", ID: 2 + s.rng.IntN(2), Elem: el}
+			n.Fields = append(n.Fields, &field{Optional: true, Name: fmt.Sprintf("F%d", len(n.Fields)), TName: fmt.Sprintf("F%d", len(n.Fields)), N: arr})
+			s.HasOptional = true
+		}
+	}
 	if s.Prop == "C07" {
 		n.MethodSrc = s.rng.IntN(5) == 0
 		n.Ctor = s.rng.IntN(6) == 0
@@ -387,6 +415,10 @@ func (s *Spec) expr(n *node, side string) string {
 		return fmt.Sprintf("SE%d", n.ID)
 	case "ptr":
 		return "*" + s.expr(n.Elem, side)
+	case "shared":
+		return fmt.Sprintf("Sh%d", n.ID)
+	case "array":
+		return fmt.Sprintf("[%d]%s", n.ID, s.expr(n.Elem, side))
 	case "tptr":
 		// T on the source side, *T on the target side (any position)
 		if side == "T" {
@@ -453,6 +485,14 @@ func (s *Spec) TypesSource() string {
 	}
 	for _, id := range sortedIDs(s.NBasics) {
 		fmt.Fprintf(&b, "type SN%d %s\ntype TN%d %s\n", id, s.NBasics[id], id, s.NBasics[id])
+	}
+	for _, id := range sortedIDs(s.Shared) {
+		n := s.Shared[id]
+		fmt.Fprintf(&b, "type Sh%d struct {\n", id)
+		for _, f := range n.Fields {
+			fmt.Fprintf(&b, "\t%s %s\n", f.Name, s.expr(f.N, "S"))
+		}
+		b.WriteString("}\n")
 	}
 	for _, id := range sortedIDs(s.Structs) {
 		n := s.Structs[id]
@@ -697,7 +737,7 @@ func (s *Spec) exprsIn(n *node, out map[string]bool, seen map[int]bool) {
 		for _, f := range n.Fields {
 			s.exprsIn(f.N, out, seen)
 		}
-	case "ptr", "slice", "tptr":
+	case "ptr", "slice", "tptr", "array":
 		s.exprsIn(n.Elem, out, seen)
 	case "map":
 		s.exprsIn(n.Key, out, seen)
@@ -788,7 +828,7 @@ func (s *Spec) EnumTargetSource() string {
 // clause matrix.
 func ManualSpec(kind, position string, ignoreMissing bool, format, wrap string) *Spec {
 	s := &Spec{Prop: "C07", Structs: map[int]*node{}, NBasics: map[int]string{}, Leaves: map[int]*leafInfo{}, Enums: map[int]int{},
-		PtrRoot: map[int]bool{}, MethodSkip: map[string]bool{}, MethodWrapOff: map[string]bool{}, Format: format, Wrap: wrap, IgnoreMissing: ignoreMissing, SkipCopyMode: "none",
+		PtrRoot: map[int]bool{}, MethodSkip: map[string]bool{}, MethodWrapOff: map[string]bool{}, Shared: map[int]*node{}, Format: format, Wrap: wrap, IgnoreMissing: ignoreMissing, SkipCopyMode: "none",
 		rng: rand.New(rand.NewPCG(1, 2))}
 	root := &node{Kind: "struct", ID: s.id()}
 	s.Structs[root.ID] = root
@@ -838,4 +878,55 @@ func ManualSpec(kind, position string, ignoreMissing bool, format, wrap string) 
 		carrier.Ctor = true
 	}
 	return s
+}
+
+// genShared builds a named struct used identically on the source and target side: only
+// side-independent kinds (basics, containers of basics, nested shared structs).
+func (s *Spec) genShared(depth int) *node {
+	r := s.rng
+	n := &node{Kind: "shared", ID: s.id()}
+	s.Shared[n.ID] = n
+	bas := func() *node { return &node{Kind: "basic", Basic: basics[r.IntN(len(basics))]} }
+	nf := 2 + r.IntN(3)
+	for i := 0; i < nf; i++ {
+		var fn *node
+		switch r.IntN(6) {
+		case 0:
+			fn = bas()
+		case 1:
+			fn = &node{Kind: "slice", Elem: bas()}
+		case 2:
+			fn = &node{Kind: "ptr", Elem: bas()}
+		case 3:
+			fn = &node{Kind: "map", Key: &node{Kind: "basic", Basic: "string"}, Elem: bas()}
+		case 4:
+			if depth < 2 {
+				fn = &node{Kind: "ptr", Elem: s.genShared(depth + 1)}
+			} else {
+				fn = bas()
+			}
+		default:
+			fn = &node{Kind: "slice", Elem: &node{Kind: "ptr", Elem: bas()}}
+		}
+		n.Fields = append(n.Fields, &field{Name: fmt.Sprintf("H%d", i), TName: fmt.Sprintf("H%d", i), N: fn})
+	}
+	return n
+}
+
+// StripOptional removes the optional fields (returns false when there was nothing to strip).
+func (s *Spec) StripOptional() bool {
+	if !s.HasOptional {
+		return false
+	}
+	for _, n := range s.Structs {
+		var keep []*field
+		for _, f := range n.Fields {
+			if !f.Optional {
+				keep = append(keep, f)
+			}
+		}
+		n.Fields = keep
+	}
+	s.HasOptional = false
+	return true
 }
